@@ -58,7 +58,7 @@ def cases(seed, tier):
         d = gen.scenario(rng, sched="sorted", kinds=("EVSE", "FR"), noise_p=0.0, constraint_free_p=0.05, nmax=7, sess_max=10,
                          bind=rng.random() < 0.85, bkinds=("ideal", "ideal", "l2c"), seed=rng.randrange(1 << 20),
                          sort=gen.SORTS[i % 5], algo=("greedy", "rr")[(i // 5) % 2], est=rng.choice([None, None, None, "fixed"]),
-                         unint=rng.random() < 0.35)
+                         unint=rng.random() < 0.35, int_type_p=0.25)
         d["sessions"] = gen.dense_sessions(rng, d["network"])
         d["recompute"] = []
         if rng.random() < 0.15:
